@@ -278,7 +278,7 @@ func orEmpty(b []byte) []byte {
 
 var c18 = &h.Campaign[ByteCase]{
 	Prop: "C18", Sub: "roundtrip",
-	Rule: "rapid: byte strings by class (empty, ASCII, text with leading/inner/trailing White_Space code points, whitespace only, look-alikes that are not White_Space, invalid UTF-8 with and without surrounding whitespace, NULs, random binary, 64 KiB - 4 MiB patterns) put through setec.Client into the real handlers and database; read back by get / get-version / conditional get, after reopening the database, through a Store handle, GetString, the FileCache document (decoded by the harness's own codec), a Store restarted from that cache with an unreachable service, and a FileClient on that cache (non-empty values); non-trivial = invalid UTF-8, surrounding whitespace, or >= 64 KiB; distinct by (class, bytes)",
+	Rule: "rapid: byte strings by class (empty, ASCII, text with leading/inner/trailing White_Space code points, whitespace only, look-alikes that are not White_Space, invalid UTF-8 with and without surrounding whitespace, NULs, random binary, 64 KiB - 4 MiB patterns) put through setec.Client into the real handlers and database (one case in four: first while the state directory is unavailable - must fail - then again), with a Store + FileCache already running on a longer earlier version; read back by get / get-version / conditional get, from a database re-opened right after the acknowledgement and again later, through a Store handle, GetString, the FileCache document (decoded by the harness's own codec), a Store restarted from that cache with an unreachable service, and a FileClient on that cache (non-empty values); non-trivial = invalid UTF-8, surrounding whitespace, or >= 64 KiB; distinct by (class, bytes)",
 	Quick: 500, Thorough: 60000,
 	Gen: func(rt *rapid.T) ByteCase {
 		c := genBytes(rt)
